@@ -122,15 +122,17 @@ impl Node {
         /// argument edge as a String or None if they are
         /// identical.
         pub fn diff(&self, other: &Edge) -> Option<String> {
-            if self.origin_node_id == other.get_origin_id() &&
-                self.weight == other.get_weight() {
+            // an edge whose weight is NaN on both sides has not changed (NaN != NaN)
+            let same_weight = self.weight == other.get_weight()
+                || (self.weight.is_nan() && other.get_weight().is_nan());
+            if self.origin_node_id == other.get_origin_id() && same_weight {
                     None
                 } else {
                    let mut diff_string: String = "[".to_owned();
                    diff_string.push_str("ONID: ");
                    diff_string.push_str(&other.get_origin_id().to_string());
                    diff_string.push_str(", ");
-                   if self.weight != other.get_weight() {
+                   if !same_weight {
                       diff_string.push_str(&self.weight.to_string());
                       diff_string.push_str(" <= WEIGHT => ");
                       diff_string.push_str(&other.get_weight().to_string());
